@@ -26,6 +26,12 @@ RULE = ("stream lin: single Model::linearization(T*) calls on 1-3 points anywher
         "precision(16) and (17), read back and written again.  non-trivial = at least one adjusted point with displaced "
         "approximate coordinates; distinct by XML text")
 TRUSTED = [
+    "tools/gen/c19_linearization.py (C++ front end: tokenizer + recursive-descent parser + symbolic interpreter of the eight "
+    "Model::linearization(T*) bodies -> Gen/G3Linearization.lean; validated by the `lin` stream) and tools/gen/c19_g3parser.py "
+    "(shape reader of the pending -dh fields and of the handler / class / dimension rows of dataparser_g3.cpp -> "
+    "Gen/G3ParserSites.lean; validated by the `parse` stream)",
+    "hand-written models Gama/Model/{G3Book,G3Net,G3Dump,AdjXml,Neu}.lean (book-keeping, network loop, gama-g3's adjustment input "
+    "dumpOf, dump writer/reader, frames): tied by the streams of drv_g3 only",
     "the line harness harness/c19_g3.cpp reads private members of g3::Point / g3::Model via '#define private public'",
     "tools/gen/c19_g3net.py: independent WGS84 conversions, frames, Jacobian and rank used as the oracle's reference",
 ]
@@ -52,14 +58,16 @@ MODELLED = [
     "that theorem",
     "regularisation: the minx list (column indices of the constrained components, C19_minx_spec) and the set class Adj "
     "regularises over (regSet: the list, all columns when no list is set - Adj::init calls min_x(n, list) only then) are "
-    "modelled; that the four solvers' default without a list is `all unknowns` is C08's",
+    "modelled (regSet is a hand definition; round 9: it equals the S the model of Adj::init_least_squares derives from dumpOf, "
+    "C19_dump_is_project_equations); that the four solvers' default without a list is `all unknowns` is C08's",
     "heights in the one-step theorem: the observation function is H - geoid + du (affine in the displacement along the "
     "point's own normal); the second-order effect of a horizontal displacement on H (xyz2blh) is not modelled",
     "Ellipsoid::xyz2blh (B, L, H of a point) is an input of the frame model (C18's subject)",
     "operator<< / istringstream>> of numbers: the round-trip theorem is stated for any printer with rd (fmt x) = q x, "
     "fmt (q x) = fmt x (q = rounding to the printed digits; example: a three-decimal printer), and derived from the "
     "decomposition print = round to p digits + exact rendering, read = exact parsing + nearest double with "
-    "D(N(D x)) = D x (`DecimalStream`); that libstdc++'s precision(16) / (17) on doubles satisfies it is a stated "
+    "D(N(D x)) = D x (`DecimalStream`); for the precision(p) printer over Q the law is proved (Props/C19Codec.lean, "
+    "C19_stream_codec_printer); that libstdc++'s precision(16) / (17) on doubles satisfies it is a stated "
     "hypothesis, tested bit for bit on every number of every dump (`res adjrt` = exact for 17 digits, `res adjrt16` = "
     "stable projection for 16 digits, relative change <= 5.2e-16)",
     "libm sin/cos/sqrt, IEEE rounding",
@@ -1133,15 +1141,31 @@ LEVEL_TEXT = ("Lean 4 theorems about executable models of what is specific to ga
               "permutations, hence the same least-squares solutions, rank, corrections per parameter; the result side "
               "(update_adjustment, Point::write_xml): reported X Y Z = initial + R (dn,de,du), and a consistent network "
               "with positive definite weights and a resolving regularisation set is reported with its generating "
-              "coordinates by every IsLSSolution; the "
+              "coordinates by every IsLSSolution (round 4: also with S = the regularisation set read off the model's minx list, "
+              "C19_minx_spec / C19_consistent_network_reproduced_minx; one step from displaced coordinates without the linearity "
+              "hypothesis for vector / xyz / height / hdiff; round 10: distance and zenith angle under first-order exactness of the "
+              "observed value, C19_first_order_network_is_linear; the horizontal angle stays under the general hypothesis); "
+              "round 9 (Props/C19Dump.lean): "
+              "gama-g3's own adjustment input dumpOf (sparse rows, minx list, one cofactor block per cluster = C10's activeCov / "
+              "apriori_sd^2) IS the system of the network theorems (C19_dump_is_project_equations), the weights are the inverse of "
+              "those blocks and positive definite whenever Adj's block Cholesky accepts them (C19_dump_weights_pd) - no free weight "
+              "matrix -, whatever Adj + any of the four algorithms answers on it is a least-squares solution under C01's input-side "
+              "gap hypotheses stated on the g3 system (RankGap, SingGap: hypotheses, not derived; Env.InputOK: round 10 derives it from "
+              "the decidable input predicate DistinctRoles - no record names a point twice -, C19_dump_input_ok; no concrete dumpOf "
+              "instance meets the hypotheses jointly), any two algorithms that answer agree in x, r, [pvv] (C19_g3_same_adjustment), a "
+              "consistent network is reproduced by every algorithm (C19_g3_consistent_network_reproduced), and the sparse-matrix "
+              "allocation dm_floats is adequate: coefficients written <= reserved, = without azimuth records "
+              "(C19_dm_floats_observation, C19_dm_floats_adequate; round 10: the BlockDiagonal(blocks, nonzeroes) sizing too, C19_block_diagonal_adequate); the "
               "pending-attribute discipline of the g3 data parser read from the source (every observation depends on "
               "its own record only, parsing is independent of record order); the adj-input-data writer/reader round "
               "trip. Models tied to the C++ by translators and differential correspondence (single linearisations, "
               "parser records, frames, sparse rows, right-hand sides, cofactor blocks, indices, SAX events) and an "
               "end-to-end oracle on gama-g3 (4 algorithms, record orders, statistics, dump re-adjusted by class Adj).")
-LEVEL_NOTE = ("The least-squares solvers behind class Adj are not part of this check (C01-C04): the network theorems are "
-              "stated for every IsLSSolution, which C01 proves each algorithm returns. The SAX state table of "
+LEVEL_NOTE = ("The least-squares solvers behind class Adj are C01-C04's models; Props/C19.lean states the network theorems for "
+              "every IsLSSolution and a free positive definite W, Props/C19Dump.lean composes them with C01_adj_of_gap_all on "
+              "gama-g3's own input (weights from the cluster covariances) under the hypotheses InputOK / RankGap / SingGap of that "
+              "input; the rejection loop is outside dumpOf (active flags are inputs). The SAX state table of "
               "the g3 parser, Model::update_init and the text layout of the result writer are exercised end-to-end only. "
-              "Azimuth coefficients are not derivatives (unreachable code). Number formatting enters as a printer law (reading back gives the number rounded to the printed digits). Proofs are over exact reals, not "
+              "Azimuth coefficients are not derivatives (unreachable code: C19_azimuth_unreachable). Number formatting enters as a printer law (reading back gives the number rounded to the printed digits), proved for the precision(p) printer over Q, a hypothesis for doubles. Proofs are over exact reals, not "
               "IEEE doubles.")
 TECHNIQUE = "Lean 4 proof (Mathlib: matrices, derivatives, list permutations) + model/implementation correspondence + end-to-end oracle"
